@@ -29,6 +29,7 @@ type bEngine struct {
 	ended  map[string]int
 	dyn    map[string]types.Type // interface parameter -> dynamic type fixed by the contract
 	storeCount int
+	topBind    map[string]bVal // parameter bindings of the function under verification (for decreases)
 	maxPaths   int
 	loopAbs    bool
 	allocMax   *big.Int
@@ -355,6 +356,10 @@ func (e *bEngine) get(st *bState, fr *bFrame, v ssa.Value) bVal {
 			et := deref(x.Type())
 			o := &bObject{id: id, typ: et, sym: "global:" + x.Name()}
 			o.root = e.symVal(st, "global:"+x.Name(), et)
+			if _, isI := et.Underlying().(*types.Interface); isI && x.Pkg != nil && !strings.HasPrefix(x.Pkg.Pkg.Path(), modPath) && isErrorType(et) {
+				// the error variables of the standard library (io.EOF, io.ErrUnexpectedEOF ...) are not nil
+				o.root = &bIface{val: bOpaque{name: "error:" + x.Name()}}
+			}
 			st.objs[id] = o
 		}
 		return bPtr{obj: id}
